@@ -182,7 +182,7 @@ func exactFact(env *fw.PolyEnv, b *ssa.BasicBlock, q fw.Cmp) bool {
 }
 
 func c20Stack(r *fw.Run, cs *c20ctx) {
-	ru := r.Rule("C20.stack", "stack discipline: Push derives the context from its parent, returns it and pushes the cancel function of that very context, records the index = length before appending; the pop closure is idempotent, only calls elements with index >= its own index and some loop of it calls EVERY element own..len-1, truncates to [0:index] on every effective path; Stop calls every element and closes the stop channel the trigger goroutine exits on; the trigger goroutine calls only the top element, only under a non-empty test, once per trigger, and returns only when the stop channel is closed", 13)
+	ru := r.Rule("C20.stack", "stack discipline: Push derives the context from its parent, returns it and pushes the cancel function of that very context, records the index = length before appending; the pop closure is idempotent, only calls elements with index >= its own index and some loop of it calls EVERY element own..len-1, truncates to [0:index] on every effective path; Stop calls every element and closes the stop channel the trigger goroutine exits on; the trigger goroutine calls only the top element, only under a non-empty test, once per trigger, never modifies the stack itself, and returns only when the stop channel is closed", 14)
 	p := cs.p
 	nw := getFn(ru, p, "internal/ctxstack.New")
 	push := getFn(ru, p, "(*internal/ctxstack.Stack).Push")
@@ -438,6 +438,7 @@ func c20Stack(r *fw.Run, cs *c20ctx) {
 	if nret == 0 {
 		ru.Fail("trigger:returns only on stop", p.Rel(trigger.Pos()), "the trigger goroutine never returns (leaks after Stop)")
 	}
+	c20TriggerReadOnly(ru, cs, trigger, field)
 	// cancels only the top, under a non-empty test, once per trigger
 	calls := cs.elemCallsDeep(trigger)
 	if len(calls) == 0 {
